@@ -105,3 +105,9 @@ package gov
 //@ func (ctrler *GovCtrler) InitLedger(req)
 //@   trusted
 //@   modifies everything
+
+// block end of this controller as seen by RigoApp.EndBlock: frame only (its steps are under their own contracts)
+//@ func (ctrler *GovCtrler) EndBlock(ctx)
+//@   trusted
+//@   modifies everything
+//@   preserves RigoApp.*, BlockContext.feeSum
